@@ -357,11 +357,9 @@ func declaredFlatFull(s *Spec, num int) *Flat {
 		f.set("epfx", hexS(s.enumPrefix()))
 		o := []string{}
 		opts := s.EOpts
-		if len(opts) > 0 && strings.HasSuffix(opts[0], "UNSPECIFIED") {
-			o = append(o, hexS(s.enumShort(opts[0]))+":0")
+		o = append(o, hexS("UNSPECIFIED")+":0")
+		if len(opts) > 0 && s.enumShort(opts[0]) == "UNSPECIFIED" {
 			opts = opts[1:]
-		} else {
-			o = append(o, hexS("UNSPECIFIED")+":0")
 		}
 		for i, n := range opts {
 			o = append(o, fmt.Sprintf("%s:%d", hexS(s.enumShort(n)), i+1))
@@ -403,7 +401,7 @@ func specQual(s *Spec) string {
 	if s.Pat != nil && *s.Pat == id62Pattern {
 		q = append(q, "id62-pattern")
 	}
-	if !s.LR.isZero() {
+	if s.LR != nil {
 		q = append(q, "lr")
 	}
 	if s.R {
